@@ -17,7 +17,10 @@ import (
 //
 //	cfg cache=<0|1> maxresp=<n> limit=<n> hdr=<0|1>   first line; hdr=1 registers the static methods
 //	                                              with a header type (ExchangeWithHeader/ProducerWithHeader)
-//	init <inst> <ex|pr|dx|dp> <absent|ok|err|panic> <prog> [h<n>]
+//	init <inst> <ex|pr|dx|dp> <absent|ok|err|panic> <prog> [h<n>] [dual]
+//	                                              dual (static methods): the returned state's TYPE implements both
+//	                                              ExchangeState and ProducerState; the model ignores the word — which
+//	                                              callback runs must follow the registered method
 //	                                              POST /<m>/init with a scripted state (c16_script.go);
 //	                                              dx/dp = the dynamic method "dyn" returning an exchange /
 //	                                              producer state; h<n> = StreamResult.Header value
@@ -86,7 +89,7 @@ func c16Exec(c *Case) {
 			c.Out(l, "ok")
 		case "init":
 			ensure()
-			if (len(f) != 5 && len(f) != 6) || (f[2] != "ex" && f[2] != "pr" && f[2] != "dx" && f[2] != "dp") {
+			if len(f) < 5 || len(f) > 7 || (f[2] != "ex" && f[2] != "pr" && f[2] != "dx" && f[2] != "dp") {
 				c.Out(l, "err:bad-line")
 				continue
 			}
@@ -95,14 +98,24 @@ func c16Exec(c *Case) {
 				c.Out(l, "err:bad-line")
 				continue
 			}
-			hdr := int64(0)
-			if len(f) == 6 {
-				n, err := strconv.ParseInt(strings.TrimPrefix(f[5], "h"), 10, 64)
-				if err != nil || n <= 0 || !strings.HasPrefix(f[5], "h") {
-					c.Out(l, "err:bad-line")
-					continue
+			hdr, dual, okw := int64(0), false, true
+			for _, w := range f[5:] {
+				switch {
+				case w == "dual" && !dual && (f[2] == "ex" || f[2] == "pr"):
+					dual = true
+				case strings.HasPrefix(w, "h") && hdr == 0:
+					n, err := strconv.ParseInt(w[1:], 10, 64)
+					if err != nil || n <= 0 {
+						okw = false
+					}
+					hdr = n
+				default:
+					okw = false
 				}
-				hdr = n
+			}
+			if !okw || (dual && len(f) == 7 && f[6] != "dual") {
+				c.Out(l, "err:bad-line")
+				continue
 			}
 			method, kind := f[2], ""
 			switch f[2] {
@@ -111,7 +124,7 @@ func c16Exec(c *Case) {
 			case "dp":
 				method, kind = "dyn", "pr"
 			}
-			res := e.post(inst, "/"+method+"/init", e.initBodyFull(method, kind, hdr, f[3], f[4]), nil)
+			res := e.post(inst, "/"+method+"/init", e.initBodyDual(method, kind, hdr, dual, f[3], f[4]), nil)
 			out := e.renderResp(res)
 			calls := e.rec.take()
 			c.Stat("init-" + f[2])
@@ -325,6 +338,21 @@ func c16TurnOracle(c *Case, e *streamEnv, l, route, schema string, keys, values,
 			nCa++
 		}
 	}
+	// an externalised output arrives as a pointer batch: a client fetches it and reads the data batch and
+	// its metadata (the cursor) off the fetched stream; judge what the client ends up with
+	if e.store != nil {
+		resolved := make([]respBatch, len(res.batches))
+		for i, b := range res.batches {
+			resolved[i] = b
+			if rb, ok := e.resolvePointer(b); ok {
+				resolved[i] = rb
+				c.Stat("output-externalised")
+			}
+		}
+		rc := *res
+		rc.batches = resolved
+		res = &rc
+	}
 	hasExc, nonLog := false, 0
 	var nonLogBatch respBatch
 	for _, b := range res.batches {
@@ -343,9 +371,22 @@ func c16TurnOracle(c *Case, e *streamEnv, l, route, schema string, keys, values,
 		key   string
 		sym   string
 	}
+	// (a token value the request itself planted under a user key reaches the handler, which may echo it
+	// back as per-emit metadata: that entry is the client's own, not a cursor of the response)
+	echoed := map[string]bool{}
+	for _, k := range calls {
+		for i, kk := range k.Keys {
+			if !isPropertyFrameworkKey(kk) {
+				echoed[kk+"\x00"+k.Values[i]] = true
+			}
+		}
+	}
 	var toks []tokAt
 	for bi, b := range res.batches {
 		for i, k := range b.keys {
+			if echoed[k+"\x00"+b.values[i]] {
+				continue
+			}
 			if sym, ok := e.symOf(b.values[i], false); ok {
 				toks = append(toks, tokAt{bi, k, sym})
 			}
@@ -452,6 +493,9 @@ func c16TurnOracle(c *Case, e *streamEnv, l, route, schema string, keys, values,
 		}
 	}
 	if route == "pr" || cur.producer {
+		if nEx != 0 {
+			c.Oracle("producer-turn-ran-exchange", fmt.Sprintf("%q: a continuation of a producer method ran Exchange %d time(s)", l, nEx))
+		}
 		return
 	}
 
@@ -460,6 +504,9 @@ func c16TurnOracle(c *Case, e *streamEnv, l, route, schema string, keys, values,
 		if k.Kind == "exchange" && (k.Outcome != "ok" || k.Emitted == 0) && !failed {
 			c.Oracle("handler-failure-not-reported", fmt.Sprintf("%q: Exchange outcome=%s emitted=%d but the response is a success", l, k.Outcome, k.Emitted))
 		}
+	}
+	if nPr != 0 {
+		c.Oracle("exchange-turn-ran-produce", fmt.Sprintf("%q: a continuation of an exchange method ran Produce %d time(s)", l, nPr))
 	}
 	if res.status == 200 && nEx != 1 && (schema == "ok" || schema == "cast") {
 		c.Oracle("exchange-turn-count", fmt.Sprintf("%q: Exchange ran %d time(s) for one continuation", l, nEx))
